@@ -27,12 +27,12 @@ CHECKS.update({
            tech='bounded symbolic model checking with a vector-clock happens-before oracle over the declared memory orders taken from the LLVM IR (seqcc -> CBMC -> kissat)'),
  'C04': e3('Monitor-pattern scenarios whose only progress source is the wake-up: a lost or swallowed wake-up is a deadlock found by the solver over all schedules, deadlines and clock values within the bounds.'),
  'C05': dict(engine='E2+E3', technique='thread-modular step check (lock mode at return under arbitrary interference) plus bounded interleavings with solver-chosen deadline and clock', 
-             text='nsync_mu_wait_with_deadline / nsync_cv_wait_with_deadline return holding the mutex in the mode of entry for every interference (E2); result codes agree with clock, condition and deadline on every bounded schedule (E3).', note=E3NOTE, ref='1.2'),
+             text='nsync_mu_wait_with_deadline / nsync_cv_wait_with_deadline return holding the mutex in the mode of entry for every interference (E2); result codes agree with clock, condition and deadline on every bounded schedule (E3); a cv wait with a cancel note against notify of that note returns ECANCELED only when notified, holding the mutex, and the cancellation is never lost (E3, contended paths of the note mutex pruned).', note=E3NOTE, ref='1.2'),
  'C06': e3('Bounded interleavings of conditional waiters (same / equivalent / different conditions, reader and writer mode) with setters: a waiter left asleep is a deadlock; conditions are evaluated only under exclusive hold (callback assertion and E2 guarantee).'),
- 'C07': e3('Bounded interleavings of mixed run_once variants: run count == 1 and completion flag checked immediately after every return.'),
- 'C10': e3('Bounded interleavings of a thread doing both decrements with a waiter / timed waiter (thorough: two decrementers, reader, passive waiter record + timed waiter): returned values, wait results against value and virtual clock, waiters released at zero (deadlock oracle, liveness of stack records).'),
+ 'C07': e3('Bounded interleavings of mixed run_once variants: run count == 1 and completion flag checked immediately after every return (thorough: a loser woken by the completion of a second once that shares the internal lock/cv slot).'),
+ 'C10': e3('Bounded interleavings of a thread doing both decrements with a waiter / timed waiter (thorough: two decrementers, reader, passive waiter record + timed waiter): returned values, wait results against value and virtual clock, waiters released at zero (deadlock oracle, liveness of stack records); additional scenarios with two unrolled loop iterations in which the contended mutex paths are pruned.'),
  'C11': e3('Sequential registration protocol on the cv through the waitable interface (a dequeued record leaves the others reachable by a signal, nothing stays registered), and bounded interleavings of nsync_wait_n{cv} holding the mutex, solver-chosen deadline, against a signaller inside / after the critical section: returned index vs signal and clock; leftover registrations exposed by signalling again (use-after-return oracle).'),
- 'C13': e3('Reference-count pattern with free of the object holding the mutex (2 users, writer/reader mix), and nsync_wait_n{cv} with a deadline against a signal issued after the critical section: every access asserts liveness of the heap / stack object in the memory model (this check found defect F3); UNSAT over all bounded schedules on the repaired tree.'),
+ 'C13': e3('Reference-count pattern with free of the object holding the mutex (2 users, writer/reader mix), and nsync_wait_n{cv} with a deadline against a signal issued after the critical section: every access asserts liveness of the heap / stack object in the memory model (this check found defect F3); timed nsync_note_wait against notify and timed counter wait against the decrement to zero (on-stack waiter records; contended mutex paths pruned); UNSAT over all bounded schedules on the repaired tree.'),
  'C14': dict(engine='E2', technique='thread-modular step check on nsync_mu_lock/rlock/trylock/rtrylock/lock_slow with ghost sleep counter; retry loop unrolled past LONG_WAIT_THRESHOLD in the thorough tier',
              text='Solver-decided obligations (1) never-waited threads cannot acquire past MU_LONG_WAIT, (2) MU_LONG_WAIT is set at the 30th fruitless wake-up and cleared only by its setter on acquiring, (3) woken threads re-queue at the front. The bound on the number of sleeps derived from them is a paper argument.',
              note=E3NOTE, ref='2 C14'),
@@ -49,10 +49,12 @@ CHECKS.update({
              note='trusted: CBMC; the layers above the semaphore pass the deadline through unchanged (read, not encoded)', ref='2 C15'),
 })
 CHECKS.update({
- 'C08': e3('SEQUENTIAL HALF ONLY: expiry = minimum of the deadlines to the root for every tree of depth 3 with solver-chosen deadlines, notification reaches descendants and leaves ancestors/siblings alone (single-thread symbolic execution of the real note.c). '
-           'The concurrent half of the property is not decided (programs too large for the bounded model checker).', tech='bounded symbolic execution of the real note code on symbolic trees (seqcc single thread -> CBMC); concurrency half not decided'),
- 'C09': e3('SEQUENTIAL HALF ONLY: adoption of the children of a freed note and no access to freed notes in a single-thread free/notify sequence; the concurrent half is not decided.',
-           tech='bounded symbolic execution of nsync_note_free / notify sequences with object liveness tracking (seqcc single thread -> CBMC); concurrency half not decided'),
+ 'C08': e3('Sequential half: expiry = minimum of the deadlines to the root for every tree of depth 3 with solver-chosen deadlines, notification reaches descendants and leaves ancestors/siblings alone (single-thread symbolic execution of the real note.c). '
+           'Concurrent half under a stated cut: two-thread bounded interleavings (nsync_note_new under a parent against notify of that parent; poller against notifier) in which the contended paths of the note mutexes are pruned - schedules where a thread blocks on a held note mutex are outside the claim.',
+           tech='bounded symbolic execution of the real note code on symbolic trees (seqcc single thread -> CBMC) + bounded interleavings by sequentialisation with pruned mutex contention'),
+ 'C09': e3('Sequential half: adoption of the children of a freed note and no access to freed notes in a single-thread free/notify sequence. Concurrent half under a stated cut: two-thread bounded interleavings free(parent) / free(child), free(child) / free(grandchild) (thorough: free / notify) with object liveness tracking; '
+           'the contended paths of the note mutexes are pruned (failing try-locks are explored, blocking on a held note mutex is outside the claim).',
+           tech='bounded symbolic execution of nsync_note_free / notify sequences with object liveness tracking (seqcc -> CBMC): single thread, and two threads by sequentialisation with pruned mutex contention'),
 })
 NA = {}
 NA_REASON = 'check not built yet (work in progress; see DESIGN.md section 5 for the order of work)'
